@@ -68,7 +68,8 @@ func toEnvVarMap(s interface{}) (map[interface{}]interface{}, error) {
 	}
 	m := map[interface{}]interface{}{}
 	for _, v := range envVars {
-		kv := strings.Split(v, "=")
+		// only the first '=' separates the name from the value
+		kv := strings.SplitN(v, "=", 2)
 		if len(kv) == 2 {
 			m[kv[0]] = kv[1]
 		}
